@@ -184,7 +184,7 @@ PROPS["C10"] = {
     "modelled": WHOLE_FILE_MODELLED,
     "level_text": "Lean theorems (frame condition of the model): after any pass in any mode - and after a complete run (input resolution, scanning, every pass the coordinator schedules) - whatever the outcome, every path outside the touch set has the bytes it had before and the touch set only grows; it is extended only by writes/removals of the output path and of resolved temp targets; vocabulary commands change no file; verify's open/finish and clean's operations create nothing. The touch set is compared with real inode/mtime changes by M7, and a full-tree snapshot oracle with decoys at near-miss names checks that only outputs and temp targets change.",
     "design_ref": '5 C10',
-    "level_note": "The statement 'touched is contained in outputs + temp targets of the processed sources' is by construction of the model's operations and checked against the implementation by the snapshot oracle; it is not stated as a separate Lean theorem over source text.",
+    "level_note": "The write scope is proved over the source text: every path a pass / a whole run touches is the output path of a processed source or the resolved target of a temp block of its text (pass_writes_only_output_and_temp_targets, run_writes_only_outputs_and_temp_targets, using the refinement machine = parse/eval/render), directories never change; the snapshot oracle checks the same scope on the real file system (inode/mtime/content of every path, plus decoys).",
     "technique": 'Lean 4 proof (touch-set soundness invariant over every pass) + full-tree snapshot oracle + differential correspondence',
     "assumptions": ['temp targets and outputs are distinct from sources and static files (domain 4.3 f)'],
 }
